@@ -149,9 +149,12 @@ pub fn make_case(ra: &RunArgs, e: u64) -> Case {
     h.add_str(&kind);
     h.add(len as u64);
     for s in &scripts {
-        h.add_str(&s.render().render());
+        s.hash_into(&mut h);
     }
-    h.add_str(&format!("{:?}", finish));
+    h.add(match finish {
+        Finish::Drop => 1,
+        Finish::IntoSeq { take } => (take as u64).wrapping_add(2),
+    });
     let cfg = ExecCfg { mode: ra.mode, scripts, finish, policy, sched_seed, freeze: None, inject: Inject::None, perturb: ra.perturb, race: ra.race };
     Case { kind, len, salt, hint, cfg, hash: h.0 }
 }
@@ -190,6 +193,8 @@ pub struct Agg {
     pub short_chunks: u64,
     pub overlapping_calls: u64,
     pub execs_with_overlap: u64,
+    pub probe_handoffs: u64,
+    pub probe_calls: u64,
     pub remainders: u64,
     pub remainder_items: u64,
     pub violations: u64,
@@ -216,7 +221,9 @@ fn case_json(c: &Case, id: &str) -> J {
 }
 
 fn run_one(a: &Args, c: &Case, id: &str, agg: &mut Agg, max_print: u64) -> ExecOut {
+    let tm0 = std::time::Instant::now();
     let (out, info) = kinds::run_kind(&c.kind, c.len, c.salt, c.hint, &c.cfg);
+    if a.flag("timing") { eprintln!("run_kind {:?} recs={}", tm0.elapsed(), out.recs.len()); }
     agg.cases += 1;
     *agg.per_kind.entry(c.kind.clone()).or_default() += 1;
     *agg.per_len.entry(c.len.to_string()).or_default() += 1;
@@ -237,6 +244,8 @@ fn run_one(a: &Args, c: &Case, id: &str, agg: &mut Agg, max_print: u64) -> ExecO
         }
     }
     agg.delivered += out.delivered as u64;
+    agg.probe_handoffs += out.probe_handoffs;
+    agg.probe_calls += out.probe_calls;
     agg.overlapping_calls += out.overlapping_calls;
     if out.overlapping_calls > 0 {
         agg.execs_with_overlap += 1;
@@ -353,7 +362,9 @@ fn cmd_run(a: &Args) -> i32 {
                 continue;
             }
         }
+        let tm0 = std::time::Instant::now();
         let base = make_case(&ra, e);
+        if a.flag("timing") { eprintln!("make_case {:?}", tm0.elapsed()); }
         let want = |v: u64| only.map(|(_, ov)| ov == v).unwrap_or(true);
         let mut points: Vec<u64> = Vec::new();
         if want(0) || only.map(|(_, ov)| (1000..2000).contains(&ov)).unwrap_or(false) {
@@ -427,13 +438,14 @@ fn cmd_run(a: &Args) -> i32 {
         .set("distinct_cases", J::u(agg.case_hashes.len()))
         .set("distinct_signatures", J::u(agg.signatures.len()))
         .set("distinct_nontrivial", J::u(agg.nontrivial.len()))
-        .set("nontrivial_hashes", J::A(agg.nontrivial.iter().take(200000).map(|h| J::S(format!("{:x}", h))).collect()))
         .set("events", J::u64(agg.events))
         .set("hook_events", J::u64(agg.hook_events))
         .set("switches", J::u64(agg.switches))
         .set("preempt_in_op", J::u64(agg.preempt_in_op))
         .set("overlapping_calls", J::u64(agg.overlapping_calls))
         .set("execs_with_overlap", J::u64(agg.execs_with_overlap))
+        .set("probe_handoffs", J::u64(agg.probe_handoffs))
+        .set("probe_calls", J::u64(agg.probe_calls))
         .set("handoffs", J::u64(agg.handoffs))
         .set("hb_accesses", J::u64(agg.hb_accesses))
         .set("hb_unordered", J::u64(agg.hb_unordered))
@@ -460,6 +472,7 @@ fn cmd_run(a: &Args) -> i32 {
         .set("violations", J::u64(agg.violations))
         .set("samples", J::A(agg.samples.clone()))
         .set("wall_s", J::F(t0.elapsed().as_secs_f64()));
+    write_hashes(a.get("hash-out"), agg.nontrivial.iter());
     println!("{}", sum.render());
     if agg.violations > 0 {
         1
